@@ -206,6 +206,10 @@ func (c *Ctx) ruleI2(f *ssa.Function) {
 		switch x := in.(type) {
 		case *ssa.MapUpdate:
 			if isIndexMap(x.Map) {
+				// a map[K]struct{} held by the receiver is a remembered set, not the view (see I6)
+				if st, ok := x.Value.Type().Underlying().(*types.Struct); ok && st.NumFields() == 0 {
+					return
+				}
 				writes = append(writes, write{x, x.Key, "store"})
 			}
 		case *ssa.Call:
